@@ -4,6 +4,7 @@ from __future__ import annotations
 import ast
 
 from .model import Repo, AnalysisError, src, norm_stmt, enclosing_function
+from .astutil import normaliser_functions
 from .rules.ordkind import OrdAnalysis, ASC
 
 PO = "molgri.space.polytopes"
@@ -172,14 +173,21 @@ def node_adding(ctx, repo: Repo, pid: str):
         if isinstance(key, ast.Call) and isinstance(key.func, ast.Name) and key.func.id == "tuple" and key.args:
             pt = src(key.args[0])
         proj = kw.get("projection")
-        okp = isinstance(proj, ast.Call) and isinstance(proj.func, ast.Name) and proj.func.id == "normalise_vectors" and \
+        okp = isinstance(proj, ast.Call) and isinstance(proj.func, ast.Name) and proj.func.id in normaliser_functions(repo) and \
             proj.args and src(proj.args[0]) == pt and not proj.keywords
         if okp:
             ctx.ok("OWN", f"{pid}.nodes.projection", "every node's projection is the node itself scaled to unit length (set at the only "
                    "node-adding site)", where, src(n)[:160])
         else:
-            ctx.violate("OWN", f"{pid}.nodes.projection", "projection stored with a node is not normalise_vectors(<that node>)", where,
-                        src(n)[:200], witness=f"projection={src(proj) if proj is not None else None}, node={pt}")
+            is_norm_call = isinstance(proj, ast.Call) and isinstance(proj.func, ast.Name) and proj.func.id in normaliser_functions(repo)
+            definite = proj is None or (pt is not None and src(proj) == pt) or \
+                (is_norm_call and (proj.keywords or not proj.args or (pt is not None and src(proj.args[0]) != pt)))
+            if definite:
+                ctx.violate("OWN", f"{pid}.nodes.projection", "projection stored with a node is not that node scaled to unit length", where,
+                            src(n)[:200], witness=f"projection={src(proj) if proj is not None else None}, node={pt}")
+            else:
+                ctx.inconclusive("OWN", f"{pid}.nodes.projection", "projection expression not recognised as the normalised node", where,
+                                 witness=f"projection={src(proj)[:100]}, node={pt}")
         lv = kw.get("level")
         ctx.check(lv is not None and _is_self_attr(lv, "current_level"), "OWN", f"{pid}.nodes.level", "new nodes are tagged with the current "
                   "level (so that exactly they receive the next block of indices)", where, src(n)[:160], witness=src(lv) if lv is not None else "no level")
@@ -290,8 +298,35 @@ def half_hypercube(ctx, repo: Repo, pid: str):
               "the N-point rotation grid is the [:N] prefix of the index-ordered half selection", where, src(r)[:160], witness=src(r.slice))
     txt = src(fi.node)
     ctx.instance("SELECT")
-    ctx.check("q_in_upper_sphere(p)" in txt.replace(" ", "") or "q_in_upper_sphere(" in txt, "SELECT", f"{pid}.half.predicate",
-              "nodes are selected by the canonical-hemisphere test on their projections", where, witness="predicate not found")
+    from .astutil import hemisphere_predicates
+    preds = hemisphere_predicates(repo)
+    used = [(n, neg) for n, neg in _filter_calls(fi.node) if n in preds]
+    if not preds or not used:
+        ctx.inconclusive("SELECT", f"{pid}.half.predicate", "canonical-hemisphere filter not recognised in the half selection", where,
+                         witness=f"predicates {sorted(preds)}")
+    else:
+        good = all((preds[n] == 1) != neg for n, neg in used)
+        ctx.check(good, "SELECT", f"{pid}.half.predicate", "nodes are selected by the canonical-hemisphere test on their projections "
+                  "(positive polarity: the same half as the rotation grid's upper indices)", where, witness=f"filters {used}")
+
+
+def _filter_calls(fn_node):
+    """(function name, negated?) of the calls used as comprehension filters / if-tests in a function"""
+    out = []
+    tests = []
+    for n in ast.walk(fn_node):
+        if isinstance(n, (ast.ListComp, ast.GeneratorExp, ast.SetComp)):
+            for g in n.generators:
+                tests += g.ifs
+        elif isinstance(n, ast.If):
+            tests.append(n.test)
+    for t in tests:
+        neg = False
+        while isinstance(t, ast.UnaryOp) and isinstance(t.op, ast.Not):
+            neg, t = not neg, t.operand
+        if isinstance(t, ast.Call) and isinstance(t.func, ast.Name):
+            out.append((t.func.id, neg))
+    return out
 
 
 # ---------------------------------------------------------------------------------------------------------------------
